@@ -3494,3 +3494,46 @@ H14_FILTER_UNIQUE_SCREEN = dict(
 H14_ALL = H14_SCREEN_PROPS + H14_VIEW_PROPS + [H14_PLATE_ID, H14_PLATE_NAME, H14_PLATE_LT, H14_PLATE_MERGE, H14_SCREEN_COMBINE,
                                                H14_SELECT_UNIQUE, H14_FILTER_UNIQUE_VIEW, H14_FILTER_UNIQUE_SCREEN]
 ALL += H14_ALL
+# ---- the argument-handling glue of the command-line wrappers: cli/argument_parsing.py (str_to_bool, cast_dict_to_type,
+# KVAppendAction.__call__), the statements of each get_args() after parser.parse_args(), introspection.py
+# (vocabulary: end of Model/Cli.v; proofs: Proofs/C18SourceArgs.v, C06SourceArgs.v, C04SourceArgs.v, C03SourceArgs.v).
+# A str = the list of its code points (`str`); dicts keyed by str / annotation objects are `kdict K V` (py2gal); `P` = the record
+# of the string primitives (Cli.pyprims: s.lower(), int(s), float(s), the call of another annotation object on a string).
+_KD_SS = "kdict str str"                # the KEY=VALUE strings of one option
+_KD_SA = "kdict str ann"                # required __init__ argument -> annotation
+_KD_SV = "kdict str (pval F O)"         # the cast parameters
+_ARGS_EQB = {"str": "str_eqb", "ann": "ann_eqb"}
+_ARGS = dict(file="src/batchie/cli/argument_parsing.py", out="SrcCliArgs.v", imports="Model.Cli", eqb=_ARGS_EQB, str_consts="str")
+_FO = [("F", "Type"), ("O", "Type"), ("P", "pyprims F O")]
+
+ARGS_STR_TO_BOOL = dict(
+    _ARGS, func="str_to_bool", name="src_str_to_bool", pyparams=["s"], params=_FO + [("s", "str")], returns="bool", vars={},
+    eqb_membership=True,
+    prims=[("__s.lower()", "p_lower P {s}", "str", {"s": "str"})],
+    raises=[("Could not convert", 22)])
+
+ARGS_CAST_DICT = dict(
+    _ARGS, func="cast_dict_to_type", name="src_cast_dict_to_type", pyparams=["k_v_string", "k_v_types"],
+    params=_FO + [("k_v_string", _KD_SS), ("k_v_types", _KD_SA)], returns=_KD_SV,
+    vars={"converters": "kdict ann callable", "k": "str", "v": "str"},
+    dict_literal_type="kdict ann callable", key_error=25,
+    coerce=[("ann", "callable", "CType {x}")],          # a type object used as a converter is called
+    prims=[("bool", "ABool", "ann"), ("int", "AInt", "ann"), ("float", "AFloat", "ann"), ("str", "AStr", "ann"),     # the builtin type objects
+           ("str_to_bool", "CStrToBool", "callable"),                                                                 # the function above, as a value
+           # the call of a converter on a string: str_to_bool is the TRANSLATED function above; a type object is called (Cli.call_callable)
+           ("__f(__v)", "!call_callable P (src_str_to_bool F O P) {f} {v}", "(pval F O)", {"f": "callable", "v": "str"})])
+
+ARGS_KV_APPEND = dict(
+    _ARGS, cls="KVAppendAction", func="__call__", name="src_kv_append",
+    pyparams=["self", "parser", "args", "values", "option_string"], pydefaults=["None"],
+    # `args` = the namespace SEEN AT the action's destination attribute self.dest: None (argparse's default) or the dict so far
+    params=[("args", "opt " + _KD_SS), ("values", "list str")], returns="opt " + _KD_SS, implicit_return="{args}",
+    vars={"k": "str", "v": "str", "d": _KD_SS},
+    assert_error=20, unpack_error=24, except_tags={"ValueError": [23, 24]}, kdict_or_empty=True,
+    prims=[("len(__l)", "Z.of_nat (length {l})", "Z", {"l": "list str"}),
+           ("__l[0]", "!list_get {l} (0)", "str", {"l": "list str"}),
+           ("__s.split(__sep, __n)", "!str_split {s} {sep} {n}", "list str", {"s": "str", "sep": "str", "n": "Z"}),
+           ("getattr(__a, self.dest)", "{a}", "opt " + _KD_SS, {"a": "opt " + _KD_SS})],       # the attribute the namespace is seen at
+    typed_effects=[("setattr(args, self.dest, __d)", "args'", "Some {d}", {"d": _KD_SS})],
+    raises=[("could not parse argument", 21)])
+ALL += [ARGS_STR_TO_BOOL, ARGS_CAST_DICT, ARGS_KV_APPEND]
